@@ -58,10 +58,11 @@ def single_write_invariant(prog: Prog) -> tuple[bool, str]:
 ALLOW_SINGLE_WRITE = {
     "LineageRunner._eval:.write:pick-one",
     "SubQueryLineageHolder.add_write_column:.write:pick-one",
-    "SubQueryLineageHolder._get_target_table:difference():pick-one",
+    "SubQueryLineageHolder.write_columns:difference():pick-one",  # the private target-table helper, absorbed into both of its callers
+    "SubQueryLineageHolder.expand_wildcard:difference():pick-one",
     "MergeExtractor.extract:.write:pick-one",
     "UpdateExtractor.extract:.write:pick-one",
-    "SqlParseLineageAnalyzer._extract_from_dml_merge:.write:pick-one",
+    "SqlParseLineageAnalyzer.analyze:.write:pick-one",
 }
 
 
